@@ -42,7 +42,14 @@ def cid_of_size(size, lf=False):
 
 
 def flag_list(fl):
-    return b'(' + b' '.join(FLAGS[f] for f in fl) + b')'
+    # system flags are case-insensitive: the spelling on the wire varies (deterministically, by the flag set), the meaning does not
+    def spell(f):
+        w = FLAGS[f]
+        k = (sum(fl) * 7 + f * 3 + len(fl)) % 4
+        if not w.startswith(b'\\') or k == 0:
+            return w
+        return w.upper() if k == 1 else (w.lower() if k == 2 else w.swapcase())
+    return b'(' + b' '.join(spell(f) for f in fl) + b')'
 
 
 DATE_ZONES = [b'+0000', b'-0700', b'+0530', b'+1300', b'-1100', b'+0000', b'-0330', b'-0930', b'-0001']
